@@ -281,6 +281,8 @@ pub struct DecoderSnapshot {
     pub data_capacity: usize,
     /// Length of the received bitmap in bits.
     pub bitmap_len: usize,
+    /// Address of the received bitmap's storage.
+    pub bitmap_ptr: usize,
 }
 
 /// Inner rate of a default-rate codec.
